@@ -248,6 +248,24 @@ theorem C15_replay_initiator (c : Nat) (ps : List Past) (hwf : ∀ p ∈ ps, p.w
     subst hh
     exact (hder (.hello salt2 d2) (by simp)).2
 
+/-- **Replay of recorded sessions, Join initiator.** A node adding a link to its connection (id `idn`)
+    with a fresh salt cannot be answered by a peer that only knows recorded traffic: `Join` fails. -/
+theorem C15_replay_join_initiator (c : Nat) (ps : List Past) (hwf : ∀ p ∈ ps, p.wf c) (adv : Nat → Prop)
+    (cfg : Cfg) (hcfg : cfg.cookie = .cookie c) (s idn : Nat)
+    (hs0 : s ≠ 0) (hs : ∀ p ∈ ps, s ∉ p.nonces) (inbox : List Msg)
+    (hder : ∀ m ∈ inbox, DerivM (learn (Known ps)
+      ((join cfg (.nonce s) [.nonce idn] []).sent.flatMap Msg.atoms)) adv m) :
+    isOk (join cfg (.nonce s) [.nonce idn] inbox).res = false := by
+  apply join_initiator_not_fooled cfg c hcfg (Known ps) adv s idn (known_no_cookie c ps hwf)
+    (known_fresh c ps hwf s hs0 hs)
+  intro i p dg hh
+  cases inbox with
+  | nil => simp at hh
+  | cons m r =>
+    simp only [List.head?_cons, Option.some.injEq] at hh
+    subst hh
+    exact (hder (.accept i p dg) (by simp)).2
+
 /-- **Join, full statement** (what the property asks): a peer that only knows recorded traffic cannot
     make an acceptor accept a Join. -/
 def C15_join_full : Prop :=
